@@ -476,6 +476,48 @@ pub(crate) fn sched_point(wait: Wait) -> Mode {
   Mode::Model(ctx)
 }
 
+/// A scheduling point *inside* a critical section, right after an acquisition: needed so
+/// that another thread can observe the lock as held (try_lock / try_write based code
+/// behaves differently then). Skipped while the execution has a single live thread.
+pub(crate) fn post_acquire_point(ctx: &Ctx) {
+  let multi = {
+    let st = lock_state(&ctx.exec);
+    st.threads.iter().filter(|t| !t.finished).count() > 1
+  };
+  if multi {
+    let _ = sched_point(Wait::Run);
+  }
+}
+
+/// non-blocking acquisition: a scheduling point, then the model decides at once
+pub(crate) enum TryMode {
+  Granted(Ctx),
+  Refused,
+  Free,
+}
+
+pub(crate) fn try_acquire(wait: Wait) -> TryMode {
+  match sched_point(Wait::Run) {
+    Mode::Model(ctx) => {
+      let mut st = lock_state(&ctx.exec);
+      if st.aborted {
+        return TryMode::Free;
+      }
+      let me = ctx.tid;
+      st.threads[me].wait = wait;
+      if st.enabled(me) {
+        st.grant(me);
+        drop(st);
+        TryMode::Granted(ctx)
+      } else {
+        st.threads[me].wait = Wait::Run;
+        TryMode::Refused
+      }
+    }
+    _ => TryMode::Free,
+  }
+}
+
 pub(crate) fn release(ctx: &Ctx, l: usize, write: bool) {
   let mut st = lock_state(&ctx.exec);
   if st.aborted {
